@@ -41,6 +41,12 @@ def _sinks(fi, accs):
             out.append((s, "%s.%s" % (src(s.base), s.attr), tm.term(s.value), op))
         else:
             t = tm.term(s.value)
+            # a copy of the weighted term (np.array(x), np.copy(x), x.copy()) is the same value
+            if t[0] == "call" and not t[3] and any(x[0] == "a" and x[2] == "coefficient" for x in subterms(t)):
+                if t[1][0] == "a" and t[1][2] in ("array", "asarray", "copy") and t[1][1] in (("n", "np"), ("n", "numpy")) and len(t[2]) == 1:
+                    t = t[2][0]
+                elif t[1][0] == "a" and t[1][2] == "copy" and not t[2]:
+                    t = t[1][1]
             if t[0] == "call" and t[1][0] == "a" and t[1][2] in ("zeros", "array") and s.kind == "plain" and \
                     not any(x[0] == "a" and x[2] == "coefficient" for x in subterms(t)):
                 continue     # a reset, not an accumulation
@@ -193,9 +199,31 @@ def run(prog, ctx):
             t = tmp.term(s.value)
             if t == ("a", ("elem", ("n", pro.params[1])), "value") and R.enclosing_loops(s.stmt):
                 good = True
+    why = ""
+    if not good:
+        # summed form:  self.integral -= sum(o.value for o in removed)  /  np.sum([o.value for o in removed], axis=0)
+        for s in R.self_stores(pro):
+            if not (s.attr in accs and s.kind == "aug" and isinstance(s.stmt.op, ast.Sub) and isinstance(s.value, ast.Call) and s.value.args):
+                continue
+            call = s.value
+            comp = call.args[0]
+            if not (isinstance(comp, (ast.ListComp, ast.GeneratorExp)) and len(comp.generators) == 1 and not comp.generators[0].ifs
+                    and isinstance(comp.generators[0].iter, ast.Name) and comp.generators[0].iter.id == pro.params[1]
+                    and isinstance(comp.generators[0].target, ast.Name) and isinstance(comp.elt, ast.Attribute) and comp.elt.attr == "value"
+                    and isinstance(comp.elt.value, ast.Name) and comp.elt.value.id == comp.generators[0].target.id):
+                continue
+            if isinstance(call.func, ast.Name) and call.func.id == "sum" and len(call.args) == 1:
+                good = True                       # the builtin adds the values one by one (element-wise for arrays)
+            elif isinstance(call.func, ast.Attribute) and call.func.attr == "sum" and R.attr_chain(call.func.value) in (["np"], ["numpy"]):
+                axis = call.args[1] if len(call.args) > 1 else next((k.value for k in call.keywords if k.arg == "axis"), None)
+                if isinstance(axis, ast.Constant) and axis.value == 0:
+                    good = True
+                else:
+                    why = (": `%s` adds up all entries of all values (no axis=0), so for a vector-valued integrand every component loses the "
+                           "sum over all components" % src(call))
     ctx.check(good, "C05.D2", R.key_of(pro, "subtracts-value"), pro.loc(),
               "every removed object's value is subtracted from the operation accumulator",
-              "process_removed_objects does not subtract each removed object's `value` from self.%s" % sorted(accs)[0])
+              "process_removed_objects does not subtract each removed object's `value` from self.%s%s" % (sorted(accs)[0], why))
 
     # ------------------------------------------------------------------ D3 / D4
     strats = S.strategies(prog)
